@@ -607,7 +607,7 @@ def gen_C09(tier, seed, unit, nunits):
                 out.append(req('f_fmt', s, n, f, 'd', 'n', 0, 0, 0, '-', rng.randint(0, 12), x))
     return {'text': out}
 
-C11_PARTS = [('C01', 4), ('C02', 4), ('C06', 6), ('C07', 8), ('C18', 1), ('C04', 3), ('C05', 3), ('C03', 6), ('C12', 2), ('C08', 2), ('C09', 2), ('C10', 6)]
+C11_PARTS = [('C01', 4), ('C02', 4), ('C06', 6), ('C07', 8), ('C18', 1), ('C04', 3), ('C05', 3), ('C03', 6), ('C12', 2), ('C08', 2), ('C09', 2), ('C10', 6), ('XBITS', 6)]
 def gen_C11(tier, seed, unit, nunits):
     """the union corpus: every family's requests (sub-sampled in quick), run under both build profiles"""
     out = {}
@@ -623,7 +623,16 @@ def gen_C11(tier, seed, unit, nunits):
             pass
     return out
 
-import gen_ext_ops, gen_ext_from
+import gen_ext_ops, gen_ext_from, gen_ext_bits
+def gen_C07x(tier, seed, unit, nunits):
+    """C07 requests + the integer-remainder forms and `%` impl variants of tools/gen_ext_bits.py"""
+    out = dict(gen_C07(tier, seed, unit, nunits))
+    for b, lines in gen_ext_bits.gen(tier, seed, unit, nunits).items():
+        out.setdefault(b, []).extend(l for l in lines if 'rem' in l.split(' ', 1)[0])
+    return out
+def gen_XBITS(tier, seed, unit, nunits):
+    """shift forms, bit inspection, signum, next_power_of_two, type constants, trait/inherent duplicates (tools/gen_ext_bits.py); part of C11's union corpus"""
+    return gen_ext_bits.gen(tier, seed, unit, nunits)
 def gen_C04x(tier, seed, unit, nunits):
     """C04 requests + the type-level From / LossyFrom impls between fixed-point types and primitives (tools/gen_ext_from.py)"""
     out = dict(gen_C04(tier, seed, unit, nunits))
@@ -640,7 +649,8 @@ def gen_C02x(tier, seed, unit, nunits):
 PROPS = {
     'C01': dict(lean_modules=['SfxProps.C01'], bins=['arith'], profiles=['chk', 'rel'], gen=gen_C01, thorough_all_fracs=True),
     'C06': dict(lean_modules=['SfxProps.C06'], bins=['arith'], profiles=['chk', 'rel'], gen=gen_C06, thorough_all_fracs=True),
-    'C07': dict(lean_modules=['SfxProps.C07'], bins=['arith'], profiles=['chk', 'rel'], gen=gen_C07, thorough_all_fracs=True),
+    'C07': dict(lean_modules=['SfxProps.C07', 'SfxProps.C07Forms'], bins=['arith'], profiles=['chk', 'rel'], gen=gen_C07x, thorough_all_fracs=True),
+    'XBITS': dict(lean_modules=['SfxProps.C11Bits'], bins=['arith'], profiles=['chk', 'rel'], gen=gen_XBITS),   # not a property: a part of C11's corpus
     'C18': dict(lean_modules=['SfxProps.C18', 'SfxProps.C18Entry'], bins=['wrap', 'conv', 'text'], profiles=['chk', 'rel'], gen=gen_C18, thorough_all_fracs=True,
                 rule='programs of 1..12 Wrapping operations (every impl variant is a distinct step kind); de-duplicated per unit; '
                      'non-trivial = some operand magnitude > 1; evaluations counts program x profile executions'),
@@ -659,8 +669,8 @@ PROPS = {
     'C17': dict(lean_modules=['SfxProps.C17'], bins=['math'], profiles=['rel'], gen=gen_C17),
     'C08': dict(lean_modules=['SfxProps.C08', 'SfxProps.C08Holds'], bins=['text'], profiles=['chk', 'rel'], gen=gen_C08),
     'C09': dict(lean_modules=['SfxProps.C09'], bins=['text'], profiles=['chk', 'rel'], gen=gen_C09),
-    'C11': dict(lean_modules=['SfxProps.C11'], bins=['arith', 'wrap', 'conv', 'math', 'text', 'codec'], profiles=['chk', 'rel'], gen=gen_C11,
-                rule='union of the request corpora of C01 C02 C06 C07 C18 C04 C05 C03 C12 C08 C09 C10 (sub-sampled in quick), each request executed by the harness built with and '
+    'C11': dict(lean_modules=['SfxProps.C11', 'SfxProps.C11Bits'], bins=['arith', 'wrap', 'conv', 'math', 'text', 'codec'], profiles=['chk', 'rel'], gen=gen_C11,
+                rule='union of the request corpora of C01 C02 C06 C07 C18 C04 C05 C03 C12 C08 C09 C10 and the shift/bit-inspection family (sub-sampled in quick), each request executed by the harness built with and '
                      'without debug assertions/overflow checks and compared with the model projections; non-trivial = some operand magnitude > 1'),
     'C02': dict(lean_modules=['SfxProps.C02', 'SfxProps.C02Ops'], bins=['arith', 'wrap'], profiles=['chk', 'rel'], gen=gen_C02x, thorough_all_fracs=True),
 }
